@@ -280,6 +280,7 @@ def run(ctx):
                             must_return=not (ch_ == 1 and nm_.startswith('Metameric')))
     __import__('harness.props.genlosses', fromlist=['x']).check_generated_losses(ctx)   # regenerated loss formulas vs /repo
     __import__('harness.props.genstatemachines', fromlist=['x']).check_generated_state_machines(ctx)   # regenerated state machines vs /repo
+    __import__('harness.props.genstatsmaps', fromlist=['x']).check_generated_statsmaps(ctx)   # regenerated calc_statsmaps (sub-objects) vs /repo
 
 def multiplane_eval(rec):
     """multiplane_loss / perceptual_multiplane_loss from a record: returns list of (what, text)"""
